@@ -10,6 +10,10 @@ import errno
 import os as real_os
 
 
+class InjectedAbort(BaseException):
+    """a non-Exception abort arriving during a write (as KeyboardInterrupt / SystemExit / GeneratorExit would)"""
+
+
 class Plan:
     def __init__(self, k=None, action=None, err=errno.EIO):
         self.k = k
@@ -30,6 +34,8 @@ class Plan:
     def fail(self, name):
         if self.action == "exit":
             real_os._exit(137)
+        if self.action == "raise_base":
+            raise (KeyboardInterrupt if self.err == 1 else InjectedAbort)(f"injected abort at file operation {self.count} ({name})")
         raise OSError(self.err, f"injected {errno.errorcode.get(self.err, self.err)} at file operation {self.count} ({name})")
 
 
